@@ -57,6 +57,7 @@ Section P.
 
   Lemma wire_of_good m data : wire_of m = Some data -> exists b, good (m, b) /\ data = frame b.
   Proof.
+    clear codec_roundtrip dec.
     unfold wire_of. destruct (encode m) as [b|] eqn:E; [|discriminate]. intros H.
     apply send_frame_legal in H as [L ->]. exists b. split; [split; assumption|reflexivity].
   Qed.
@@ -74,6 +75,7 @@ Section P.
     if complete then cur_ok (f ++ [(m, b)]) c' /\ c_wire c' = c_wire c ++ frame b /\ c_wire c = frames f
     else cur_ok f c' /\ wire_ok f (c_wire c').
   Proof.
+    clear codec_roundtrip dec.
     intros (Hg & t & Hw & Hp & Hcap) Hb. unfold write.
     assert (L : (0 < length (frame b))%nat) by (rewrite frame_length; lia).
     destruct (c_cap c) as [k|] eqn:Ek.
@@ -98,10 +100,12 @@ Section P.
   Qed.
 
   Lemma cur_ok_wire_ok f c : cur_ok f c -> wire_ok f (c_wire c).
-  Proof. intros (Hg & t & Hw & Hp & _). split; [exact Hg|]. exists t. auto. Qed.
+  Proof.
+    clear codec_roundtrip dec. intros (Hg & t & Hw & Hp & _). split; [exact Hg|]. exists t. auto. Qed.
 
   Lemma fresh_ok cap : cur_ok [] {| c_cap := cap; c_wire := [] |}.
-  Proof. split; [constructor|]. exists []. repeat split; [left; reflexivity|congruence]. Qed.
+  Proof.
+    clear codec_roundtrip dec. split; [constructor|]. exists []. repeat split; [left; reflexivity|congruence]. Qed.
 
   Lemma Inv_log done l s : Inv done (log l s) <-> Inv done s.
   Proof. reflexivity. Qed.
@@ -115,6 +119,7 @@ Section P.
     | _ => Inv done s1
     end.
   Proof.
+    clear codec_roundtrip dec.
     intros HI. unfold attempt_once. destruct (a_stopped a); [exact HI|].
     (* the state and connection after getOrCreateConnection *)
     set (got := match cur s with
@@ -157,7 +162,8 @@ Section P.
   Qed.
 
   Lemma Inv_weaken done m s : Inv done s -> Inv (done ++ [m]) s.
-  Proof. intros (fs & fc & A & B & C). exists fs, fc. split; [|split]; auto. now apply subseq_snoc_skip. Qed.
+  Proof.
+    clear codec_roundtrip dec. intros (fs & fc & A & B & C). exists fs, fc. split; [|split]; auto. now apply subseq_snoc_skip. Qed.
 
   Lemma Inv_sleep done s : Inv done (sleep s) <-> Inv done s.
   Proof. reflexivity. Qed.
@@ -167,6 +173,7 @@ Section P.
   Lemma try_loop_inv done m : forall script s,
     Inv done s -> Inv (done ++ [m]) (fst (fst (try_loop m script s))).
   Proof.
+    clear codec_roundtrip dec.
     induction script as [|a rest IH]; intros s HI; cbn [Link.try_loop fst].
     - now apply Inv_weaken.
     - pose proof (attempt_once_inv done m a s HI) as H1. destruct (attempt_once m a s) as [s1 o].
@@ -180,6 +187,7 @@ Section P.
   Lemma exec_inv : forall ms done script s,
     Inv done s -> Inv (done ++ ms) (fst (exec ms script s)).
   Proof.
+    clear codec_roundtrip dec.
     induction ms as [|m ms IH]; intros done script s HI; cbn [Link.exec fst].
     - now rewrite app_nil_r.
     - pose proof (try_loop_inv done m script s HI) as H1.
@@ -477,4 +485,37 @@ Lemma write_complete_all c data c' :
 Proof.
   unfold write. destruct (c_cap c) as [k|]; [|now intros [= <-]].
   destruct (N.of_nat (length data) <=? k); [now intros [= <-]|discriminate].
+Qed.
+
+Definition refuse_closed : answers := {| a_stopped := false; a_connect := CRefused; a_closed := true; a_werr := true |}.
+
+Lemma overlap_refuted :
+  exists (ms : list bytes) (script : list answers) (r : list bytes),
+    let s := fst (exec id_encode 0 ms script init) in
+    merges (per_conn (fun b => Some b) s) r /\ ~ subseq r ms.
+Proof.
+  exists [[1]; [2]; [3]], [ok_conn (Some 5); ok_conn None; ok_conn None], [[3]; [1]].
+  pose proof overlap_witness as H. cbn zeta in H. cbn zeta. tauto.
+Qed.
+
+Lemma tell_refuted :
+  exists (limit : N) (m : bytes) (script : list answers),
+    let s := fst (fst (try_loop id_encode limit m script init)) in
+    count_sleeps (trace s) = 3 /\ sleeps_ms (trace s) = 700 /\ dead s = [m].
+Proof. exists 3, [7], [refuse; refuse; refuse; refuse]. exact tell_blocks_witness. Qed.
+
+Lemma try_loop_limit0_no_sleep {M} (encode : M -> option bytes) m script (s s' : @st M) rest :
+  attempt s = 0 ->
+  try_loop encode 0 m script s = (s', rest, true) ->
+  exists tr, trace s' = trace s ++ tr /\ count_sleeps tr = 0.
+Proof.
+  intros Ha H. apply try_loop_spec in H; [|lia]. destruct H as (_ & tr & Htr & Hc & _).
+  exists tr. split; [exact Htr|lia].
+Qed.
+
+Lemma retry_drops {M} (encode : M -> option bytes) m a (s s1 : @st M) :
+  attempt_once encode m a s = (s1, ORetry) -> cur s1 = None.
+Proof.
+  intros H. pose proof (attempt_once_shape encode m a s) as Hs. rewrite H in Hs.
+  destruct Hs as (_ & _ & tr & _ & _ & _ & _ & Hd). now apply Hd.
 Qed.
